@@ -130,8 +130,9 @@ def run_tier(prop, tier):
         cfg["runs"] = int(os.environ["VERIF_RUNS"])
     workers = int(os.environ.get("VERIF_WORKERS", min(16, os.cpu_count() or 1)))
     opts = eng.prepare_opts(cfg.get("opts", {}))
-    print("VERIF_SEED=%d property=%s tier=%s runs=%d workers=%d repo=%s" % (
-        seed, prop, tier, cfg["runs"], workers, env.REPO))
+    print("VERIF_SEED=%d property=%s tier=%s runs=%d (+%d enumerated families) workers=%d "
+          "repo=%s" % (seed, prop, tier, cfg["runs"], len(eng.systematic_jobs(seed, tier)),
+                       workers, env.REPO))
     sys.stdout.flush()
     harness_errors = []
     report = {"determinism": {}, "sweep": {}}
@@ -167,7 +168,8 @@ def run_tier(prop, tier):
         res = runner.run_batch(
             eng_name, opts, seed, range(cfg["runs"]), workers=workers, chunk=cfg["chunk"],
             want_plans=3, max_viol_total=cfg["max_violations"],
-            min_budget=cfg["min_budget"], wall_limit_s=cfg["wall_limit_s"])
+            min_budget=cfg["min_budget"], wall_limit_s=cfg["wall_limit_s"],
+            systematic=eng.systematic_jobs(seed, tier))
         harness_errors += [str(h) for h in res["harness_errors"][:5]]
     except Exception as e:
         harness_errors.append("batch crashed: %r" % (e,))
@@ -195,7 +197,7 @@ def run_tier(prop, tier):
                "violation": v["violation"], "plan": v["plan"], "digest": v["digest"],
                "original_plan": v["original_plan"], "opts": opts,
                "minimise_tries": v["minimise_tries"], "known_finding": v.get("known")}
-        path = os.path.join(REPLAY_DIR, "%s-seed%d-run%d%s.json" % (
+        path = os.path.join(REPLAY_DIR, "%s-seed%d-run%s%s.json" % (
             prop, v["seed"], v["run"], "-known" if v.get("known") else ""))
         with open(path, "w") as f:
             json.dump(rec, f, indent=1, default=repr)
@@ -254,8 +256,9 @@ def run_tier(prop, tier):
             harness_errors.append("reach probes stuck at zero: %s" % stuck)
 
     if res is not None:
-        print("runs=%d events=%d distinct_schedules=%d violating_runs=%d wall=%.1fs" % (
-            res["runs"], res["events"], res["distinct_schedules"], res["violating_runs"], wall))
+        print("runs=%d (enumerated %d) events=%d distinct_schedules=%d violating_runs=%d "
+              "wall=%.1fs" % (res["runs"], res["systematic_runs"], res["events"],
+                              res["distinct_schedules"], res["violating_runs"], wall))
     for kf, path in known_out:
         print("KNOWN-FINDING: property=%s %s (replay=%s)" % (prop, kf["what"], path))
     for v, path in violations_out:
